@@ -34,7 +34,10 @@ BUDGET_S = {"quick": 150.0, "thorough": 2400.0}
 SPECIAL32 = [0x7FC00000, 0xFFC00000, 0x7F800001, 0x7F800000, 0xFF800000, 0x00000001, 0x807FFFFF, 0x80000000, 0x7F7FFFFF, 0x00800000]
 SPECIAL64 = [0x7FF8000000000000, 0xFFF8000000000000, 0x7FF0000000000001, 0x7FF0000000000000, 0xFFF0000000000000,
              0x0000000000000001, 0x800FFFFFFFFFFFFF, 0x8000000000000000, 0x7FEFFFFFFFFFFFFF, 0x0010000000000000]
-NAMES = ["a", "b", "u", "vel", "f_0", "Grid", "Scalar", "x1", "omega_field", "w"]
+# names are built from few tokens so that they repeat across grids AND so that different (grid name, field name) pairs join to the
+# same string under the usual separators ("rod" + "tip_force" / "rod_tip" + "force", "a" + "b_c" / "a_b" + "c", "f" + "0" / "f_0")
+NAMES = ["a", "b", "u", "vel", "f_0", "f", "Grid", "Scalar", "x1", "omega_field", "w", "tip_force", "force", "b_c", "c"]
+GRID_NAMES = ["rodA", "Grid", "body_2", "cyl", "rod", "rod_tip", "a", "a_b"]
 
 
 def _variants(tier):
@@ -72,7 +75,7 @@ def _strategy(tier, var):
                 c["eul"].append({"name": nm, "vector": vec, "bits": draw(_bits(dtype, ncell * (dim if vec else 1)))})
         if cls == "IO":
             ng = draw(st.integers(0, 3))
-            gnames = draw(st.lists(st.one_of(st.none(), st.sampled_from(["rodA", "Grid", "body_2", "cyl"])), min_size=ng, max_size=ng))
+            gnames = draw(st.lists(st.one_of(st.none(), st.sampled_from(GRID_NAMES)), min_size=ng, max_size=ng))
             seen = set()
             for gi, gn in enumerate(gnames):
                 if gn is not None and gn in seen:
@@ -87,6 +90,18 @@ def _strategy(tier, var):
                     fields.append({"name": fn, "vector": vec, "bits": draw(_bits(dtype, n * (dim if vec else 1)))})
                 c["lag"].append({"name": gn, "connect": draw(st.booleans()), "n": n, "grid_bits": draw(_bits(dtype, n * dim)),
                                  "fields": fields})
+        if cls == "IO" and len(c["lag"]) >= 2 and draw(st.integers(0, 3)) == 0:
+            # two different (grid, field) pairs whose names join to the same string under "_"
+            ga, fa, gb, fb = draw(st.sampled_from([("rod", "tip_force", "rod_tip", "force"), ("a", "b_c", "a_b", "c")]))
+            for g, gn, fn in ((c["lag"][0], ga, fa), (c["lag"][1], gb, fb)):
+                g["name"] = gn
+                g["fields"] = [fl for fl in g["fields"] if fl["name"] != fn]
+                vec = draw(st.booleans())
+                g["fields"].append({"name": fn, "vector": vec, "bits": draw(_bits(dtype, g["n"] * (dim if vec else 1)))})
+            for g in c["lag"][2:]:
+                if g["name"] in (ga, gb):
+                    g["name"] = None
+            c["joined_names_collide"] = True
         if cls == "CosseratRodIO":
             c["n_elems"] = draw(st.sampled_from([2, 3, 4, dim, 9]))
             c["rod_key"] = draw(gen.block_keys)
@@ -317,6 +332,8 @@ def _body(case, ctx):
         labels.append("N_equals_dim")
     if dup_across:
         labels.append("field_name_repeated_across_grids")
+    if case.get("joined_names_collide"):
+        labels.append("grid_and_field_names_join_to_the_same_string")
     if case["lag"] and not any(g["fields"] for g in case["lag"]):
         labels.append("grids_without_fields")
     ctx.note(nontrivial=has_special and has_vec, labels=labels)
